@@ -1082,11 +1082,19 @@ def create_joint_distribution(
         raise ValueError('At least two random variables are needed')
 
     sset = model.statements
+
+    def _statement_names(rv):
+        return '_'.join([s.symbol.name for s in sset if Expr.symbol(rv) in s.rhs_symbols])
+
+    # New covariance parameters are named after the statements using the two etas. Etas that
+    # cannot be told apart this way (or are used by no statement) go by their own name so that
+    # each covariance gets a parameter of its own
+    all_names = [_statement_names(rv) for rv in all_rvs.names]
     paramnames = []
     for rv in rvs:
-        parameter_names = '_'.join(
-            [s.symbol.name for s in sset if Expr.symbol(rv) in s.rhs_symbols]
-        )
+        parameter_names = _statement_names(rv)
+        if not parameter_names or all_names.count(parameter_names) > 1:
+            parameter_names = rv
         paramnames.append(parameter_names)
 
     all_rvs, cov_to_params = all_rvs.join(
